@@ -298,6 +298,34 @@ def r5_inclusive_window(repo=None):
                     r.ok("%s:%s %s" % (m.rel, n.lineno, q), "`%s` is built from groups secs/frac of the match that decided" % tv)
                 else:
                     r.violation(m.rel, q, norm(ast.unparse(n)), "window time is not built from the secs/frac groups of the name", line=n.lineno)
+    # names without a time stamp (properties files) are exempt from the window: every window drop happens only after
+    # match.group("secs") succeeded
+    wcmp = [n for n in g.nodes if n.kind == "cond" and isinstance(n.ast, ast.Compare) and not isinstance(n.ast.ops[0], (ast.Is, ast.IsNot))
+            and any(b in norm(ast.unparse(n.ast)) for b in ("self.starttime", "self.endtime"))]
+    drops = []
+    for n in wcmp:
+        ts = [b for b, lab in g.succ[n.id] if lab == "T"]
+        treach = g.reach(ts, skip_labels=("exc",))
+        drops += [x for x in g.nodes if x.kind == "return" and x.id in treach and x not in drops]
+    if wcmp and drops:
+        def has_secs(node_ast):
+            return any(isinstance(c, ast.Call) and isinstance(c.func, ast.Attribute) and c.func.attr == "group" and c.args
+                       and pyfront.const(c.args[0]) == "secs" for c in ast.walk(node_ast))
+        G = [n for n in g.nodes if n.ast is not None and not isinstance(n.ast, (ast.For, ast.If, ast.Try)) and has_secs(n.ast)]
+        helper_has = any(has_secs(h) for h, c, b in pyutil.local_helpers(m, f, depth=2))
+        if not G and helper_has:
+            raise AnalysisError("%s: the name time stamp is extracted in a helper; exemption of time-less names not analysed" % q)
+        gids = [n.id for n in G]
+        free = g.reach([g.entry.id], avoid=gids)
+        via_exc = g.reach([b for n in G for b, lab in g.succ[n.id] if lab == "exc"], avoid=gids) if G else set()
+        bad = [d for d in drops if d.id in free or d.id in via_exc]
+        if bad:
+            r.violation(m.rel, q, "window drop (`return` at line %d) not conditional on match.group('secs') succeeding" % bad[0].line,
+                        "an event for a name without a time stamp (a properties file) is compared with the time window through a "
+                        "substitute time and dropped, although the listing returns properties files whatever the window", line=bad[0].line)
+        else:
+            r.ok("%s:%s %s" % (m.rel, G[0].line, q), "the window is applied only after match.group('secs') succeeded: time-less names "
+                 "(properties files) are never dropped by it")
     if tv is None:
         cmp_bounds = [n for n in g.nodes if n.kind == "cond" and isinstance(n.ast, ast.Compare)
                       and not isinstance(n.ast.ops[0], (ast.Is, ast.IsNot))
@@ -310,6 +338,8 @@ def r5_inclusive_window(repo=None):
                             line=f.lineno)
             r.guard(2)
             return r
+        if r.findings:
+            return r        # positive evidence already reported; the rest of the rule cannot be analysed on this form
         raise AnalysisError("%s: construction of the name timestamp (datetime.timedelta(seconds=, milliseconds=)) not found" % q)
     found = {"start": False, "end": False}
     for n in g.nodes:
